@@ -233,7 +233,11 @@ RandomAccessIterator partition(RandomAccessIterator first,
     // abort();
     return s.first;
   }
-  return std::partition(s.rfirst, s.rlast, pred);
+  // the span to finish sequentially must reach the point where the low and
+  // the high side met: fully processed blocks may lie between it and the
+  // leftover blocks
+  return std::partition(std::min(s.rfirst, s.first), std::max(s.rlast, s.first),
+                        pred);
 }
 
 struct pair_dist {
